@@ -21,7 +21,7 @@ cd /; git -C /repo worktree remove --force $D
 echo "$id: demo clean rc=$rc0, refactored rc=$rc1, $tests warnings=$nw"
 ok=0; [ $rc0 -eq 0 ] && [ $rc1 -eq 0 ] && [ "$nw" = "0" ] && echo "$tests" | grep -q "PASS:  15" && ok=1
 [ $ok -eq 1 ] || { echo "NOT A VERIFIED REFACTORING $id"; exit 1; }
-res=$(/verif/tool/tryseed.sh $src/patch.diff 2>&1)
+res=$(python3 /verif/selftest/trypatch.py $src/patch.diff 2>&1)
 echo "$res" | grep -v "rc=0" | cut -c1-330
 dst=/verif/refactors/$name
 mkdir -p $dst
